@@ -12,13 +12,25 @@ import (
 	"go/token"
 	"go/types"
 
+	"golang.org/x/tools/go/packages"
+
 	"rscheck/cfgq"
 	"rscheck/core"
 )
 
 type ival struct {
-	c constant.Value    // scalar
-	m map[string]string // string->string map
+	c  constant.Value    // scalar
+	m  map[string]string // string->string map
+	mm map[string]ival   // map from string to anything else (struct values ...)
+	et types.Type        // element type of mm
+	s  map[string]ival   // struct value, by field name
+	p  *iref             // pointer to a variable of some frame
+}
+
+// iref is the address of a variable: the environment that holds it and its object.
+type iref struct {
+	env map[types.Object]ival
+	obj types.Object
 }
 
 type outcome int
@@ -34,8 +46,10 @@ const (
 type interp struct {
 	c     *core.Ctx
 	info  *types.Info
+	pkg   *packages.Package
 	env   map[types.Object]ival
-	ret   []constant.Value
+	glob  map[types.Object]ival // shared: package-level tables loaded so far
+	ret   []ival
 	fuel  int
 	depth int
 }
@@ -68,6 +82,10 @@ func MapLiteral(c *core.Ctx, pkgPath string, obj types.Object) (map[string]strin
 		})
 	}
 	if lit == nil {
+		// `var m = build()`: a function of the package that fills a fresh map with constant entries
+		if m, pos := builtMap(c, pk, obj); m != nil {
+			return m, pos
+		}
 		return nil, nil
 	}
 	m := map[string]string{}
@@ -95,7 +113,26 @@ func evalTable(c *core.Ctx, fn *core.Fn, args []constant.Value, globals map[type
 }
 
 func evalTableDepth(c *core.Ctx, fn *core.Fn, args []constant.Value, globals map[types.Object]ival, depth int) (res []constant.Value, panicked bool, err error) {
-	it := &interp{c: c, info: fn.Pkg.TypesInfo, env: map[types.Object]ival{}, fuel: 2000, depth: depth}
+	iargs := make([]ival, len(args))
+	for i, a := range args {
+		iargs[i] = ival{c: a}
+	}
+	out, panicked, err := evalFn(c, fn, iargs, globals, depth)
+	if err != nil || panicked {
+		return nil, panicked, err
+	}
+	for _, v := range out {
+		if v.c == nil || v.c.Kind() == constant.Unknown {
+			return nil, false, fmt.Errorf("a result is not a scalar constant")
+		}
+		res = append(res, v.c)
+	}
+	return res, false, nil
+}
+
+// evalFn runs fn on argument values (scalars, struct values, pointers to variables of the caller).
+func evalFn(c *core.Ctx, fn *core.Fn, args []ival, globals map[types.Object]ival, depth int) (res []ival, panicked bool, err error) {
+	it := &interp{c: c, info: fn.Pkg.TypesInfo, pkg: fn.Pkg, env: map[types.Object]ival{}, glob: globals, fuel: 2000, depth: depth}
 	for k, v := range globals {
 		it.env[k] = v
 	}
@@ -105,8 +142,20 @@ func evalTableDepth(c *core.Ctx, fn *core.Fn, args []constant.Value, globals map
 			if i >= len(args) {
 				return nil, false, fmt.Errorf("more parameters than arguments")
 			}
-			it.env[it.info.Defs[nm]] = ival{c: args[i]}
+			it.env[it.info.Defs[nm]] = args[i]
 			i++
+		}
+	}
+	// named results start at their zero value
+	var named []types.Object
+	if fn.Decl.Type.Results != nil {
+		for _, f := range fn.Decl.Type.Results.List {
+			for _, nm := range f.Names {
+				if o := it.info.Defs[nm]; o != nil {
+					it.env[o] = it.zero(o.Type())
+					named = append(named, o)
+				}
+			}
 		}
 	}
 	defer func() {
@@ -122,13 +171,38 @@ func evalTableDepth(c *core.Ctx, fn *core.Fn, args []constant.Value, globals map
 			panic(r)
 		}
 	}()
+	nres := 0
+	if fn.Decl.Type.Results != nil {
+		nres = fn.Decl.Type.Results.NumFields()
+	}
 	switch it.block(fn.Decl.Body.List) {
 	case oReturn:
+		if len(it.ret) == 0 && len(named) > 0 { // bare return
+			for _, o := range named {
+				it.ret = append(it.ret, it.env[o])
+			}
+		}
 		return it.ret, false, nil
 	case oPanic:
 		return nil, true, nil
+	case oNext:
+		if nres == 0 {
+			return nil, false, nil
+		}
 	}
 	return nil, false, fmt.Errorf("function ends without return")
+}
+
+// zero is the zero value of type t (scalars and structs of them).
+func (it *interp) zero(t types.Type) ival {
+	if st, ok := t.Underlying().(*types.Struct); ok {
+		v := ival{s: map[string]ival{}}
+		for i := 0; i < st.NumFields(); i++ {
+			v.s[st.Field(i).Name()] = it.zero(st.Field(i).Type())
+		}
+		return v
+	}
+	return ival{c: zeroOf(t)}
 }
 
 func (it *interp) block(list []ast.Stmt) outcome {
@@ -151,8 +225,16 @@ func (it *interp) stmt(s ast.Stmt) outcome {
 		return oNext
 	case *ast.ReturnStmt:
 		it.ret = nil
+		if len(s.Results) == 1 {
+			if call, ok := ast.Unparen(s.Results[0]).(*ast.CallExpr); ok {
+				if vs, ok := it.call(call); ok && len(vs) > 1 { // return f(...)
+					it.ret = vs
+					return oReturn
+				}
+			}
+		}
 		for _, r := range s.Results {
-			it.ret = append(it.ret, it.scalar(r))
+			it.ret = append(it.ret, it.eval(r))
 		}
 		return oReturn
 	case *ast.BranchStmt:
@@ -176,6 +258,9 @@ func (it *interp) stmt(s ast.Stmt) outcome {
 		if f := core.CalleeFunc(it.info, call); f != nil && f.Pkg() != nil && (f.Pkg().Name() == "log" || f.Pkg().Path() == "fmt") {
 			return oNext // logging only
 		}
+		if _, ok := it.call(call); ok { // a helper of the module, evaluated for its effect on out-parameters
+			return oNext
+		}
 		it.fail(s, "call with unknown effect")
 	case *ast.DeclStmt:
 		gd, ok := s.Decl.(*ast.GenDecl)
@@ -188,7 +273,7 @@ func (it *interp) stmt(s ast.Stmt) outcome {
 				if len(vs.Values) == len(vs.Names) {
 					it.env[it.info.Defs[nm]] = it.eval(vs.Values[i])
 				} else if len(vs.Values) == 0 {
-					it.env[it.info.Defs[nm]] = ival{c: zeroOf(it.info.Defs[nm].Type())}
+					it.env[it.info.Defs[nm]] = it.zero(it.info.Defs[nm].Type())
 				} else {
 					it.fail(s, "unsupported declaration")
 				}
@@ -200,14 +285,45 @@ func (it *interp) stmt(s ast.Stmt) outcome {
 			it.fail(s, "unsupported assignment operator")
 		}
 		set := func(l ast.Expr, v ival) {
-			id, ok := ast.Unparen(l).(*ast.Ident)
-			if !ok {
-				it.fail(s, "assignment to a non-variable")
-			}
-			if id.Name == "_" {
+			switch lx := ast.Unparen(l).(type) {
+			case *ast.Ident:
+				if lx.Name == "_" {
+					return
+				}
+				it.env[core.ObjOf(it.info, lx)] = v
 				return
+			case *ast.StarExpr: // *p = v
+				if r := it.eval(lx.X); r.p != nil {
+					r.p.env[r.p.obj] = v
+					return
+				}
+			case *ast.SelectorExpr: // local.f = v
+				if id, ok := ast.Unparen(lx.X).(*ast.Ident); ok {
+					o := core.ObjOf(it.info, id)
+					if cur, ok := it.env[o]; ok && cur.s != nil && !isPkgLevel(o) {
+						ns := map[string]ival{}
+						for k, fv := range cur.s {
+							ns[k] = fv
+						}
+						ns[lx.Sel.Name] = v
+						it.env[o] = ival{s: ns}
+						return
+					}
+				}
 			}
-			it.env[core.ObjOf(it.info, id)] = v
+			it.fail(s, "assignment to a non-variable")
+		}
+		if len(s.Lhs) >= 2 && len(s.Rhs) == 1 {
+			if call, ok := ast.Unparen(s.Rhs[0]).(*ast.CallExpr); ok { // a, b := helper(...)
+				vs, ok := it.call(call)
+				if !ok || len(vs) != len(s.Lhs) {
+					it.fail(s, "unsupported tuple assignment")
+				}
+				for i, l := range s.Lhs {
+					set(l, vs[i])
+				}
+				return oNext
+			}
 		}
 		if len(s.Lhs) == 2 && len(s.Rhs) == 1 { // v, ok := m[k]
 			ix, ok := ast.Unparen(s.Rhs[0]).(*ast.IndexExpr)
@@ -215,12 +331,22 @@ func (it *interp) stmt(s ast.Stmt) outcome {
 				it.fail(s, "unsupported tuple assignment")
 			}
 			m := it.eval(ix.X)
-			if m.m == nil {
+			key := constant.StringVal(it.scalar(ix.Index))
+			switch {
+			case m.m != nil:
+				v, found := m.m[key]
+				set(s.Lhs[0], ival{c: constant.MakeString(v)})
+				set(s.Lhs[1], ival{c: constant.MakeBool(found)})
+			case m.mm != nil:
+				v, found := m.mm[key]
+				if !found {
+					v = it.zero(m.et)
+				}
+				set(s.Lhs[0], v)
+				set(s.Lhs[1], ival{c: constant.MakeBool(found)})
+			default:
 				it.fail(s, "index of a non-map")
 			}
-			v, found := m.m[constant.StringVal(it.scalar(ix.Index))]
-			set(s.Lhs[0], ival{c: constant.MakeString(v)})
-			set(s.Lhs[1], ival{c: constant.MakeBool(found)})
 			return oNext
 		}
 		if len(s.Lhs) != len(s.Rhs) {
@@ -336,19 +462,61 @@ func (it *interp) eval(e ast.Expr) ival {
 	}
 	switch x := e.(type) {
 	case *ast.Ident:
-		if v, ok := it.env[core.ObjOf(it.info, x)]; ok {
+		o := core.ObjOf(it.info, x)
+		if v, ok := it.env[o]; ok {
+			return v
+		}
+		if v, ok := it.global(o); ok {
 			return v
 		}
 		it.fail(e, "variable without a known value")
 	case *ast.IndexExpr:
 		m := it.eval(x.X)
-		if m.m == nil {
-			it.fail(e, "index of a non-map")
+		switch {
+		case m.m != nil:
+			return ival{c: constant.MakeString(m.m[constant.StringVal(it.scalar(x.Index))])}
+		case m.mm != nil:
+			if v, ok := m.mm[constant.StringVal(it.scalar(x.Index))]; ok {
+				return v
+			}
+			return it.zero(m.et)
 		}
-		return ival{c: constant.MakeString(m.m[constant.StringVal(it.scalar(x.Index))])}
+		it.fail(e, "index of a non-map")
+	case *ast.SelectorExpr:
+		if _, isField := it.info.Selections[x]; isField {
+			v := it.eval(x.X)
+			if v.p != nil { // p.f on a pointer to a struct variable
+				v = v.p.env[v.p.obj]
+			}
+			if fv, ok := v.s[x.Sel.Name]; ok && v.s != nil {
+				return fv
+			}
+			it.fail(e, "field of a value that is not a known struct")
+		}
+	case *ast.StarExpr:
+		if r := it.eval(x.X); r.p != nil {
+			if v, ok := r.p.env[r.p.obj]; ok {
+				return v
+			}
+		}
+		it.fail(e, "dereference of an unknown pointer")
+	case *ast.CompositeLit:
+		if v, ok := it.composite(x); ok {
+			return v
+		}
+		it.fail(e, "unsupported composite literal")
 	case *ast.UnaryExpr:
 		if x.Op == token.NOT {
 			return ival{c: constant.MakeBool(!constant.BoolVal(it.boolean(x.X)))}
+		}
+		if x.Op == token.AND {
+			if id, ok := ast.Unparen(x.X).(*ast.Ident); ok {
+				o := core.ObjOf(it.info, id)
+				if _, known := it.env[o]; known && !isPkgLevel(o) {
+					return ival{p: &iref{env: it.env, obj: o}}
+				}
+			}
+			it.fail(e, "address of something that is not a local variable")
 		}
 	case *ast.BinaryExpr:
 		switch x.Op {
@@ -370,30 +538,12 @@ func (it *interp) eval(e ast.Expr) ival {
 			return ival{c: constant.MakeBool(constant.Compare(a, x.Op, b))}
 		}
 	}
-	if call, ok := e.(*ast.CallExpr); ok && it.depth < 3 {
-		// a helper of the module with constant arguments: evaluate it the same way
-		if fn := it.c.FnOf(core.CalleeFunc(it.info, call)); fn != nil && fn.Decl.Body != nil && !call.Ellipsis.IsValid() {
-			args := make([]constant.Value, len(call.Args))
-			for i, a := range call.Args {
-				args[i] = it.scalar(a)
+	if call, ok := e.(*ast.CallExpr); ok {
+		if vs, ok := it.call(call); ok {
+			if len(vs) == 1 {
+				return vs[0]
 			}
-			globals := map[types.Object]ival{}
-			for k, v := range it.env {
-				if vv, ok := k.(*types.Var); ok && vv.Parent() == vv.Pkg().Scope() {
-					globals[k] = v
-				}
-			}
-			res, pan, err := evalTableDepth(it.c, fn, args, globals, it.depth+1)
-			if err != nil {
-				it.fail(e, "helper %s: %v", fn.Name(), err)
-			}
-			if pan {
-				panic(interpPanic{})
-			}
-			if len(res) == 1 {
-				return ival{c: res[0]}
-			}
-			it.fail(e, "helper %s has %d results", fn.Name(), len(res))
+			it.fail(e, "helper with %d results used as a value", len(vs))
 		}
 	}
 	it.fail(e, "unsupported expression")
@@ -401,3 +551,335 @@ func (it *interp) eval(e ast.Expr) ival {
 }
 
 type interpPanic struct{}
+
+func isPkgLevel(o types.Object) bool {
+	v, ok := o.(*types.Var)
+	return ok && v.Pkg() != nil && v.Parent() == v.Pkg().Scope()
+}
+
+// call evaluates a call of a module function the same way (arguments may be
+// scalars, struct values or addresses of locals); ok is false when the callee
+// is not such a function.
+func (it *interp) call(call *ast.CallExpr) ([]ival, bool) {
+	if it.depth >= 3 || call.Ellipsis.IsValid() {
+		return nil, false
+	}
+	if tv, ok := it.info.Types[call.Fun]; ok && tv.IsType() {
+		return nil, false
+	}
+	fn := it.c.FnOf(core.CalleeFunc(it.info, call))
+	if fn == nil || fn.Decl.Body == nil || fn.Decl.Recv != nil {
+		return nil, false
+	}
+	args := make([]ival, len(call.Args))
+	for i, a := range call.Args {
+		args[i] = it.eval(a)
+	}
+	res, pan, err := evalFn(it.c, fn, args, it.glob, it.depth+1)
+	if err != nil {
+		it.fail(call, "helper %s: %v", fn.Name(), err)
+	}
+	if pan {
+		panic(interpPanic{})
+	}
+	return res, true
+}
+
+// composite evaluates a struct literal or a map literal with constant string keys.
+func (it *interp) composite(lit *ast.CompositeLit) (ival, bool) {
+	t := it.info.TypeOf(lit)
+	if t == nil {
+		return ival{}, false
+	}
+	switch u := t.Underlying().(type) {
+	case *types.Struct:
+		v := it.zero(t)
+		for i, el := range lit.Elts {
+			if kv, ok := el.(*ast.KeyValueExpr); ok {
+				id, ok := kv.Key.(*ast.Ident)
+				if !ok {
+					return ival{}, false
+				}
+				v.s[id.Name] = it.litElem(kv.Value, fieldType(u, id.Name))
+			} else if i < u.NumFields() {
+				v.s[u.Field(i).Name()] = it.litElem(el, u.Field(i).Type())
+			}
+		}
+		return v, true
+	case *types.Map:
+		if b, ok := u.Key().Underlying().(*types.Basic); !ok || b.Info()&types.IsString == 0 {
+			return ival{}, false
+		}
+		v := ival{mm: map[string]ival{}, et: u.Elem()}
+		for _, el := range lit.Elts {
+			kv, ok := el.(*ast.KeyValueExpr)
+			if !ok {
+				return ival{}, false
+			}
+			k := constant.StringVal(it.scalar(kv.Key))
+			if _, dup := v.mm[k]; dup {
+				return ival{}, false
+			}
+			v.mm[k] = it.litElem(kv.Value, u.Elem())
+		}
+		return v, true
+	}
+	return ival{}, false
+}
+
+// litElem evaluates an element of a composite literal; `{a, b}` without a type takes the element type.
+func (it *interp) litElem(e ast.Expr, t types.Type) ival {
+	if cl, ok := ast.Unparen(e).(*ast.CompositeLit); ok && cl.Type == nil && t != nil {
+		if st, ok := t.Underlying().(*types.Struct); ok {
+			v := it.zero(t)
+			for i, el := range cl.Elts {
+				if kv, ok := el.(*ast.KeyValueExpr); ok {
+					if id, ok := kv.Key.(*ast.Ident); ok {
+						v.s[id.Name] = it.litElem(kv.Value, fieldType(st, id.Name))
+					}
+				} else if i < st.NumFields() {
+					v.s[st.Field(i).Name()] = it.litElem(el, st.Field(i).Type())
+				}
+			}
+			return v
+		}
+	}
+	return it.eval(e)
+}
+
+func fieldType(st *types.Struct, name string) types.Type {
+	for i := 0; i < st.NumFields(); i++ {
+		if st.Field(i).Name() == name {
+			return st.Field(i).Type()
+		}
+	}
+	return nil
+}
+
+// global loads a package-level variable of the analysed package that is
+// initialised by a literal of constants (a map with string keys, a struct) and
+// never written, re-bound or passed by address anywhere in the package.
+func (it *interp) global(o types.Object) (ival, bool) {
+	if !isPkgLevel(o) || it.pkg == nil || o.Pkg() != it.pkg.Types {
+		return ival{}, false
+	}
+	var init ast.Expr
+	written := false
+	for _, f := range it.pkg.Syntax {
+		ast.Inspect(f, func(n ast.Node) bool {
+			switch x := n.(type) {
+			case *ast.ValueSpec:
+				for i, nm := range x.Names {
+					if it.info.Defs[nm] == o && len(x.Values) == len(x.Names) {
+						init = x.Values[i]
+					}
+				}
+			case *ast.AssignStmt:
+				for _, l := range x.Lhs {
+					root := ast.Unparen(l)
+					for {
+						switch r := root.(type) {
+						case *ast.IndexExpr:
+							root = ast.Unparen(r.X)
+							continue
+						case *ast.SelectorExpr:
+							if _, isField := it.info.Selections[r]; isField {
+								root = ast.Unparen(r.X)
+								continue
+							}
+						}
+						break
+					}
+					if id, ok := root.(*ast.Ident); ok && it.info.Uses[id] == o {
+						written = true
+					}
+				}
+			case *ast.UnaryExpr:
+				if id, ok := ast.Unparen(x.X).(*ast.Ident); ok && x.Op == token.AND && it.info.Uses[id] == o {
+					written = true
+				}
+			case *ast.CallExpr:
+				if bi, ok := core.Callee(it.info, x).(*types.Builtin); ok && bi.Name() == "delete" && len(x.Args) > 0 {
+					if id, ok := ast.Unparen(x.Args[0]).(*ast.Ident); ok && it.info.Uses[id] == o {
+						written = true
+					}
+				}
+			}
+			return true
+		})
+	}
+	lit, ok := ast.Unparen(init).(*ast.CompositeLit)
+	if init == nil || !ok || written {
+		return ival{}, false
+	}
+	v, ok := it.composite(lit)
+	if !ok {
+		return ival{}, false
+	}
+	it.env[o] = v
+	if it.glob != nil {
+		it.glob[o] = v
+	}
+	return v, true
+}
+
+// builtMap evaluates `var m = f()` where f (no parameters) creates a map,
+// stores constant string entries (directly, or in a range over a composite
+// literal of constant pairs) and returns it. The CompositeLit result is only
+// used for positions (nil here: the rule then points at the function).
+func builtMap(c *core.Ctx, pk *packages.Package, obj types.Object) (map[string]string, *ast.CompositeLit) {
+	var init ast.Expr
+	for _, f := range pk.Syntax {
+		ast.Inspect(f, func(n ast.Node) bool {
+			if vs, ok := n.(*ast.ValueSpec); ok {
+				for i, nm := range vs.Names {
+					if pk.TypesInfo.Defs[nm] == obj && len(vs.Values) == len(vs.Names) {
+						init = vs.Values[i]
+					}
+				}
+			}
+			return true
+		})
+	}
+	call, ok := ast.Unparen(init).(*ast.CallExpr)
+	if init == nil || !ok || len(call.Args) != 0 {
+		return nil, nil
+	}
+	fn := c.FnOf(core.CalleeFunc(pk.TypesInfo, call))
+	if fn == nil || fn.Decl.Body == nil {
+		return nil, nil
+	}
+	info := fn.Pkg.TypesInfo
+	var mv types.Object
+	m := map[string]string{}
+	var anyLit *ast.CompositeLit
+	str := func(e ast.Expr) (string, bool) { return core.StringConst(info, e) }
+	for _, st := range fn.Decl.Body.List {
+		switch x := st.(type) {
+		case *ast.AssignStmt:
+			if len(x.Lhs) != 1 || len(x.Rhs) != 1 {
+				return nil, nil
+			}
+			if ix, ok := ast.Unparen(x.Lhs[0]).(*ast.IndexExpr); ok && mv != nil && core.ObjOf(info, identOfExpr(ix.X)) == mv {
+				k, ok1 := str(ix.Index)
+				v, ok2 := str(x.Rhs[0])
+				if !ok1 || !ok2 {
+					return nil, nil
+				}
+				if _, dup := m[k]; dup {
+					return nil, nil
+				}
+				m[k] = v
+				continue
+			}
+			if mv != nil {
+				return nil, nil
+			}
+			switch r := ast.Unparen(x.Rhs[0]).(type) {
+			case *ast.CallExpr:
+				if bi, ok := core.Callee(info, r).(*types.Builtin); !ok || bi.Name() != "make" {
+					return nil, nil
+				}
+			case *ast.CompositeLit:
+				for _, el := range r.Elts {
+					kv, ok := el.(*ast.KeyValueExpr)
+					if !ok {
+						return nil, nil
+					}
+					k, ok1 := str(kv.Key)
+					v, ok2 := str(kv.Value)
+					if !ok1 || !ok2 {
+						return nil, nil
+					}
+					m[k] = v
+				}
+				anyLit = r
+			default:
+				return nil, nil
+			}
+			mv = core.ObjOf(info, x.Lhs[0])
+		case *ast.RangeStmt:
+			// for _, e := range <literal of pairs> { m[e[0]] = e[1] }   or   { m[e.k] = e.v }
+			lit, ok := ast.Unparen(x.X).(*ast.CompositeLit)
+			ev, _ := x.Value.(*ast.Ident)
+			if !ok || ev == nil || mv == nil || len(x.Body.List) != 1 {
+				return nil, nil
+			}
+			as, ok := x.Body.List[0].(*ast.AssignStmt)
+			if !ok || len(as.Lhs) != 1 || len(as.Rhs) != 1 {
+				return nil, nil
+			}
+			ix, ok := ast.Unparen(as.Lhs[0]).(*ast.IndexExpr)
+			if !ok || core.ObjOf(info, identOfExpr(ix.X)) != mv {
+				return nil, nil
+			}
+			part := func(e ast.Expr, el *ast.CompositeLit) (string, bool) {
+				switch p := ast.Unparen(e).(type) {
+				case *ast.IndexExpr: // e[i]
+					if core.ObjOf(info, identOfExpr(p.X)) != core.ObjOf(info, ev) {
+						return "", false
+					}
+					i, ok := core.IntConst(info, p.Index)
+					if !ok || int(i) >= len(el.Elts) {
+						return "", false
+					}
+					return str(el.Elts[i])
+				case *ast.SelectorExpr: // e.f
+					if core.ObjOf(info, identOfExpr(p.X)) != core.ObjOf(info, ev) {
+						return "", false
+					}
+					for _, fe := range el.Elts {
+						if kv, ok := fe.(*ast.KeyValueExpr); ok {
+							if id, ok := kv.Key.(*ast.Ident); ok && id.Name == p.Sel.Name {
+								return str(kv.Value)
+							}
+						}
+					}
+					if st, ok := info.TypeOf(el).Underlying().(*types.Struct); ok {
+						for i := 0; i < st.NumFields() && i < len(el.Elts); i++ {
+							if _, keyed := el.Elts[i].(*ast.KeyValueExpr); !keyed && st.Field(i).Name() == p.Sel.Name {
+								return str(el.Elts[i])
+							}
+						}
+					}
+				}
+				return "", false
+			}
+			for _, e := range lit.Elts {
+				el, ok := e.(*ast.CompositeLit)
+				if !ok {
+					return nil, nil
+				}
+				k, ok1 := part(ix.Index, el)
+				v, ok2 := part(as.Rhs[0], el)
+				if !ok1 || !ok2 {
+					return nil, nil
+				}
+				if _, dup := m[k]; dup {
+					return nil, nil
+				}
+				m[k] = v
+			}
+			anyLit = lit
+		case *ast.ReturnStmt:
+			if len(x.Results) != 1 || mv == nil || core.ObjOf(info, identOfExpr(x.Results[0])) != mv {
+				return nil, nil
+			}
+			if anyLit == nil {
+				anyLit = &ast.CompositeLit{Lbrace: fn.Decl.Pos(), Rbrace: fn.Decl.Pos()}
+			}
+			return m, anyLit
+		default:
+			return nil, nil
+		}
+	}
+	return nil, nil
+}
+
+func identOfExpr(e ast.Expr) *ast.Ident {
+	id, _ := ast.Unparen(e).(*ast.Ident)
+	if id == nil {
+		return &ast.Ident{Name: "\x00"}
+	}
+	return id
+}
